@@ -244,7 +244,6 @@ class FnTr(ExprMixin, CallMixin, StmtMixin):
                     if id(n) in rec_calls:
                         continue
                     self.observed.add(n.id)
-        self.escape_ok = set()
         self.fuel_of = {}
         k = 0
         for st in stmts:
@@ -255,12 +254,12 @@ class FnTr(ExprMixin, CallMixin, StmtMixin):
         return [f'fuel{i + 1}' for i in range(k)]
 
     def escape(self, value, node):
-        """see StmtMixin.escape; in addition the variable must have been created in the innermost enclosing loop body"""
+        """a value handed to a constructor / appended to a list / returned: a variable in it that is updated in place
+        must not be updated after this statement and, inside a loop, must have been created by an assignment in
+        the body of the innermost enclosing loop (so that the next iteration works on a fresh object)"""
         root = self.root
         for n in ast.walk(value):
             if not (isinstance(n, ast.Name) and n.id in root.mutated):
-                continue
-            if n.id in root.obj_lists:
                 continue
             sites = root.mutation_lines.get(n.id, [])
             if any(ln > node.lineno for ln in sites):
@@ -274,10 +273,6 @@ class FnTr(ExprMixin, CallMixin, StmtMixin):
                     for t in (s.targets if isinstance(s, ast.Assign) else [s.target])) for s in loop.body)
                 if not made:
                     fail(node, f'{n.id!r} is updated in place and stored / passed on inside a loop that does not create it')
-
-    @staticmethod
-    def same_stmt(n, node):
-        return any(x is n for x in ast.walk(node))
 
     # ---- signature
     def param_types(self, f, skip_self):
@@ -302,11 +297,6 @@ class FnTr(ExprMixin, CallMixin, StmtMixin):
         """params: [(python name, type)]; -> Fn; the text of the definition goes to self.u.out"""
         body = strip_docstring(body)
         fuels = self.analyse(body, [p for p, _ in params] + (['self'] if self_ty else []))
-        self.obj_lists = set()
-        for st in body:
-            for n in ast.walk(st):
-                if isinstance(n, ast.For) and isinstance(n.iter, ast.Name):
-                    self.obj_lists.add(n.iter.id)
         self.ret_ty = ret_ty
         env = {}
         for f in fuels:
@@ -366,9 +356,6 @@ class FnTr(ExprMixin, CallMixin, StmtMixin):
         caps = [n for n in env if not n.startswith('<') and n in used and n not in inner and env[n].fn is None]
         if assigned_names(body) & set(caps):
             fail(s, 'a closure changes a captured variable')
-        for n in caps:
-            if n in self.root.local_names and self.store_count(n) > 1 and n not in {p for p, _ in self.root_params}:
-                pass
         cenv = {n: env[n] for n in env if n.startswith('<')}
         for n in caps:
             cenv[n] = env[n]
@@ -389,7 +376,6 @@ class FnTr(ExprMixin, CallMixin, StmtMixin):
         root = self.root
         keep_name, keep_no = root.coqname, root.loopno
         root.coqname, root.loopno = sub.coqname, 0
-        sub.root_params = []
         try:
             code = sub.block(body, cenv, Flow(fall, None, None, ret))
         finally:
@@ -399,11 +385,6 @@ class FnTr(ExprMixin, CallMixin, StmtMixin):
         binders += ''.join(f' ({cenv[p].code} : {coq_ty(ty)})' for p, ty in params)
         self.root.defs.append(f'Definition {sub.coqname}{binders} : res ({pty(ret_ty)}) :=\n{ind(code)}.')
         env[s.name] = Var(sub.coqname, None, fn=Fn(sub.coqname, params, ret_ty, captures=caps))
-
-    root_params = []
-
-    def store_count(self, name):
-        return 2
 
 
 # ---------------------------------------------------------------------------------------------- unit
